@@ -66,9 +66,13 @@ type countDB struct {
 	db *sql.DB
 	mu sync.Mutex
 	ok int
+	all int // every ExecContext issued
 }
 
 func (f *countDB) ExecContext(ctx context.Context, q string, args ...any) (sql.Result, error) {
+	f.mu.Lock()
+	f.all++
+	f.mu.Unlock()
 	r, err := f.db.ExecContext(ctx, q, args...)
 	if err == nil && !isRestoreStmt(q) {
 		f.mu.Lock()
